@@ -10,6 +10,7 @@ pub struct C19 {
     tier: Tier,
     base: Vec<Vec<u8>>,
     forms: Vec<Code>,
+    batch: u64,
 }
 
 impl C19 {
@@ -26,7 +27,7 @@ impl C19 {
                 v
             })
             .collect();
-        C19 { tier, base, forms: all_forms() }
+        C19 { tier, base, forms: all_forms(), batch: BATCH }
     }
 }
 
@@ -88,13 +89,17 @@ impl C19 {
 impl Monitor for C19 {
     fn total_cases(&self) -> u64 {
         // one case = a batch of inputs
-        self.tier.pick(1_200, 100_000)
+        self.tier.pick(5_000, 200_000)
+    }
+
+    fn shrink(&mut self) {
+        self.batch = 4;
     }
 
     fn run_case(&mut self, k: u64, rng: &mut Rng, col: &mut Collector) {
         let rip = run::CODE_RIP;
         let mut pre = self.base.clone();
-        for j in 0..BATCH {
+        for j in 0..self.batch {
             let (bytes, class) = self.gen_bytes(rng);
             // state: steered when the bytes decode (operands hit mapped / edge / unmapped addresses), random otherwise
             let dec = decode(&bytes, rip);
